@@ -168,6 +168,8 @@ inductive Op
   | mock (b v : Nat) (m : String) (kind : Kind) (fits : Bool)
   /-- the same through a `CachedInterfaceMocker` handle the test kept from its first `b.Interface(&v)` -/
   | mockH (b v : Nat) (m : String) (kind : Kind) (fits : Bool)
+  /-- `b.Interface(&v).Method(m).Cancel()`: cancel through ONE method's handle (mocker.go:156; it cancels the shared context) -/
+  | cancelM (b v : Nat) (m : String)
   | reset (b : Nat)                               -- b.Reset()
   | drop (b : Nat)                                -- the test drops its reference to builder b
 deriving Repr
@@ -310,9 +312,19 @@ def mmsOf (s : St) (b : Nat) : List Nat :=
 /-- builder.go:196 `Builder.Reset` → cache.go:175 `CachedInterfaceMocker.Cancel` → `baseMocker.Cancel` -/
 def resetStep (s : St) (b : Nat) : Option St := cancelMMs s (mmsOf s b)
 
+/-- `b.Interface(&v).Method(m).Cancel()`: a fresh lookup (builder.go:62, cache.go:163), then mocker.go:156 on that method
+    mocker: if it has a guard the *shared* context is canceled and the whole variable restored -/
+def cancelMStep (cfg : Cfg) (s : St) (b v : Nat) (m : String) : Option (St × Status) :=
+  let (j, s) := interfaceOf cfg s b v
+  if m = "" then some (s, .panic "method-is-empty") else
+  if ¬ (m ∈ s.types (s.cms j).typ) then some (s, .panic "nomethod") else
+  let (i, s) := methodOf s j m
+  (cancelMM s i).map fun s => (s, .ok)
+
 def step (cfg : Cfg) (s : St) : Op → Option (St × Status)
   | .mock b v m kind fits => mockStep cfg s b v m kind fits
   | .mockH b v m kind fits => mockHStep cfg s b v m kind fits
+  | .cancelM b v m => cancelMStep cfg s b v m
   | .reset b => (resetStep s b).map fun s => (s, .ok)
   | .drop b => some ({ s with blds := upd s.blds b { s.blds b with alive := false } }, .ok)
 
